@@ -276,8 +276,10 @@ class Quote(BlockToken):
 
         # parse child block tokens
         Paragraph.parse_setext = False
-        parse_buffer = tokenizer.tokenize_block(line_buffer, _token_types, start_line=start_line)
-        Paragraph.parse_setext = True
+        try:
+            parse_buffer = tokenizer.tokenize_block(line_buffer, _token_types, start_line=start_line)
+        finally:
+            Paragraph.parse_setext = True
         return parse_buffer
 
     @staticmethod
